@@ -35,7 +35,7 @@ def flat(s):
     return re.sub(r"\s+", "", s)
 
 
-from rules.common import flatp, has, same  # noqa: E402
+from rules.common import flatp, has, same, xquotes  # noqa: E402
 
 
 def cmp_canon(text):
@@ -136,7 +136,7 @@ def r1_semantics(ctx):
             for k, w in want.items():
                 if p.startswith(k):
                     seen.add(k)
-                    qs = sorted(tok_text(q["tokens"]) for q in quotes_in(a["body"]))
+                    qs = sorted(tok_text(q["tokens"]) for q in xquotes(a["body"]))
                     # variable names of the interpolations are bound by the pattern: normalise
                     binds = re.findall(r"\b(\w+)\b", p.split("(")[-1] if "(" in p and "{" not in p else "")
                     if k == "Range::Exact(" and binds:
@@ -160,7 +160,7 @@ def r1_semantics(ctx):
         arms = arms_by_variant(m) if m else {}
         for k, a in arms.items():
             body = flat(show(a["body"]))
-            qs = [tok_text(q["tokens"]) for q in quotes_in(a["body"])]
+            qs = [tok_text(q["tokens"]) for q in xquotes(a["body"])]
             if k.startswith("Range::Exact"):
                 v = re.findall(r"\((\w+)\)", k)
                 ok = qs == ["plural_count == #%s" % (v[0] if v else "exact")] and body.startswith("Some(")
@@ -230,7 +230,7 @@ def r2_first_match(ctx):
             r.inst(name, "ranges.%s -> arms in declaration order" % ".".join(meths))
         if "floats" in name:
             # first `if`, the rest chained with else, in iterator order
-            qs = [tok_text(q["tokens"]) for q in quotes_in(fn.body)]
+            qs = [tok_text(q["tokens"]) for q in xquotes(fn.body)]
             if "#first #(else #ifs)*" not in qs:
                 r.viol("R2:%s#chain" % name, "float branches are not emitted as `first else second else ...`", file=fn.file, line=fn.line)
             else:
@@ -465,7 +465,7 @@ def r7_type_tables(ctx):
             bt = show(a["body"])
             vals = set(re.findall(r"(?:RangeType|UntypedRangesInner)::(\w+)", bt))
             lit = re.findall(r'"(\w+)"', bt)
-            q = [tok_text(x["tokens"]) for x in quotes_in(a["body"])]
+            q = [tok_text(x["tokens"]) for x in xquotes(a["body"])]
             out[key] = (vals, lit, q, bt)
         return out
     checks = [
